@@ -532,6 +532,7 @@ func c20Run(s *sim.Sim, p *sim.Params) {
 				s.Fail("oracle", "lru-model:"+op.kind, fmt.Sprintf("after %d operations: %s\nhistory:\n  %s", i+1, why, strings.Join(sample, "\n  ")))
 			}
 			st = nst
+			s.Quiesce(0) // (the janitor may be in the middle of a sweep: let it finish and release the lock)
 			if why := c20structural(c, cfg); why != "" {
 				s.Fail("invariant", "cache-structure", fmt.Sprintf("after %v: %s\nhistory:\n  %s", op, why, strings.Join(sample, "\n  ")))
 			}
@@ -586,6 +587,7 @@ func c20Run(s *sim.Sim, p *sim.Params) {
 	if !s.WaitTimeout(10*time.Second, hs...) {
 		s.Fail("deadlock", s.BlockedSitesOf(hs...), "cache operations did not return: "+s.BlockedSummary())
 	}
+	s.Quiesce(0)
 	if why := c20structural(c, cfg); why != "" {
 		s.Fail("invariant", "cache-structure", "after concurrent phase: "+why)
 	}
